@@ -36,6 +36,7 @@ from py_gql.schema import (
     String,
     InterfaceType,
     UnionType,
+    Directive,
 )
 from py_gql.schema.scalars import default_scalar
 
@@ -198,6 +199,39 @@ class BuiltAbs:
                                      Field("items", ListType(union), resolver=things)])
         self.schema = Schema(
             query, types=[t for n, t in b.types.items() if n not in BUILTIN] + objs + [iface, union])
+
+
+class BuiltDir:
+    """schema with a custom directive @custom(cdefs) (FIELD and OBJECT); the
+    resolver of Query.f / Sub.f records info.get_directive_arguments("custom"),
+    the resolver of the sibling field `other` records that it ran"""
+
+    def __init__(self, sd, cdefs):
+        self.base = b = Built(sd)
+        self.calls = []
+        self.custom = Directive("custom", locations=["FIELD", "OBJECT"],
+                                args=[b._mk(Argument, a) for a in cdefs])
+
+        def resolver(root, ctx, info, **kwargs):
+            try:
+                self.calls.append(("ok", info.get_directive_arguments("custom")))
+            except Exception as e:  # noqa
+                self.calls.append(("exc", e))
+                raise
+            return 1
+
+        self.others = []
+
+        def other(root, ctx, info, **kwargs):
+            self.others.append(1)
+            return 2
+
+        sub = ObjectType("Sub", [Field("f", Int, resolver=resolver), Field("other", Int, resolver=other)])
+        query = ObjectType("Query", [Field("f", Int, resolver=resolver),
+                                     Field("other", Int, resolver=other),
+                                     Field("parent", sub, resolver=lambda *a, **k: {})])
+        self.schema = Schema(query, directives=[self.custom],
+                             types=[t for n, t in b.types.items() if n not in BUILTIN])
 
 
 def _hashable(v):
